@@ -40,9 +40,12 @@ UNPROVED = [
     "hierarchy.evaluate is modelled (alignment via util.adjust_intervals, 9 keys in order) and compared value for "
     "value; the only theorem about it is C08_Hierarchy.evaluate_T_ignores_labels (its six T entries do not depend "
     "on label contents); that it is the documented bundle is C03's subject",
-    "relational theorems (C02_Hierarchy: self-score (1,1,1)/(0,0,0) by the decidable predicate hasRefTriple; "
-    "C08_Hierarchy: label renaming; C12_Hierarchy: segment splitting) are proved; an input-level characterisation of "
-    "hasRefTriple (e.g. 'some level has two segments longer than a frame') is not stated",
+    "relational theorems (C02_Hierarchy: self-score (1,1,1)/(0,0,0) by the decidable predicate hasRefTriple, which "
+    "tmeasure_self_iff / lmeasure_self_iff restate on the input: (1,1,1) iff some query frame has two other frames in "
+    "its window whose LCA / meet depths with it (lcaSpec / meetSpec: deepest level sharing a segment / a label) are "
+    "related, with segment- and label-level sufficient conditions tmeasure_self_of_split / lmeasure_self_of_split; "
+    "C08_Hierarchy: label renaming; C12_Hierarchy: segment splitting) are proved; the depths are over the exact "
+    "rational frame indices floor(t / frame_size), binary64 frame rounding is compared, not proved",
     "util.adjust_intervals / validate_hier_intervals on malformed input: modelled and compared, no theorem "
     "(C13 / C14's subjects); validation of VALID annotations is proved (tmeasure_total_partial)",
 ]
